@@ -112,17 +112,7 @@ func CheckJSONRecord(payload []byte, exp ExpRecord) *Problem {
 	if err := MatchJSONAttrs(o, Normalize(exp.Attrs), reservedJSON, ""); err != nil {
 		return problem("C04/attrs", "%v; logged [%s]; payload %s", err, Describe(exp.Attrs), Short(string(payload)))
 	}
-	// member order: time, logger, level, msg first
-	wantOrder := []string{"time", "level", "msg"}
-	if exp.LoggerName != "" {
-		wantOrder = []string{"time", "logger", "level", "msg"}
-	}
-	for i, k := range wantOrder {
-		if i >= len(o.Keys) || o.Keys[i] != k {
-			return problem("C04/members", "leading members are %q, want %q", o.Keys[:min(len(o.Keys), len(wantOrder))], wantOrder)
-		}
-	}
-	return nil
+	return nil // (no member order is asserted: a JSON object has none, and the statement names none)
 }
 
 // CheckLogfmtRecord is the C05 oracle for one payload. errorDump=true accepts (and
@@ -183,17 +173,23 @@ func CheckLogfmtRecord(payload []byte, exp ExpRecord, errorDump bool) *Problem {
 	idx++
 	rest := pairs[idx:]
 	if exp.Caller {
-		if len(rest) < 3 {
-			return problem("C05/caller", "caller pairs missing; payload %s", Short(string(payload)))
+		// the three caller pairs, wherever they stand after the message and in whatever order
+		var keep []LPair
+		seen := map[string]LPair{}
+		for _, p := range rest {
+			if _, dup := seen[p.Key]; !dup && (p.Key == "caller.file" || p.Key == "caller.line" || p.Key == "caller.function") {
+				seen[p.Key] = p
+				continue
+			}
+			keep = append(keep, p)
 		}
-		c := rest[len(rest)-3:]
-		rest = rest[:len(rest)-3]
-		if c[0].Key != "caller.file" || c[1].Key != "caller.line" || c[2].Key != "caller.function" {
-			return problem("C05/caller", "last three pairs are %q %q %q, want caller.file/line/function", c[0].Key, c[1].Key, c[2].Key)
+		if len(seen) != 3 {
+			return problem("C05/caller", "caller pairs missing (found %d of caller.file/line/function); payload %s", len(seen), Short(string(payload)))
 		}
-		if c[0].Kind != "quoted" || c[2].Kind != "quoted" || c[1].Kind != "bare" {
-			return problem("C05/caller", "caller pairs have wrong shapes: %q %q %q", c[0].Raw, c[1].Raw, c[2].Raw)
+		if seen["caller.file"].Kind != "quoted" || seen["caller.function"].Kind != "quoted" || seen["caller.line"].Kind != "bare" {
+			return problem("C05/caller", "caller pairs have wrong shapes: %q %q %q", seen["caller.file"].Raw, seen["caller.line"].Raw, seen["caller.function"].Raw)
 		}
+		rest = keep
 	}
 	if err := MatchLogfmtAttrs(rest, Normalize(exp.Attrs), true); err != nil {
 		return problem("C05/attrs", "%v; logged [%s]; payload %s", err, Describe(exp.Attrs), Short(string(payload)))
